@@ -72,6 +72,20 @@ func c19StartCluster(dir string) (*cluster, *option.Options, error) {
 		}()
 		opt := CreateOptionsForTest(dir)
 		opt.ClusterRequestTimeout = c19RequestTimeout
+		// CreateOptionsForTest takes its ports from the kernel's ephemeral range.  This rig stops
+		// its server on purpose (for up to 20 s): meanwhile any process on the machine may be
+		// given one of those ports for a listener (another embedded etcd of a check running next
+		// to this one, whose answers the syncers would then take for their own server's) or for
+		// an outgoing connection.  Ports below the ephemeral range are given to nobody unasked.
+		if ports, ok := c19PortsOutsideEphemeralRange(3); ok {
+			name := opt.Name
+			opt.Cluster.ListenClientURLs = []string{fmt.Sprintf("http://localhost:%d", ports[0])}
+			opt.Cluster.AdvertiseClientURLs = opt.Cluster.ListenClientURLs
+			opt.Cluster.ListenPeerURLs = []string{fmt.Sprintf("http://localhost:%d", ports[1])}
+			opt.Cluster.InitialAdvertisePeerURLs = opt.Cluster.ListenPeerURLs
+			opt.Cluster.InitialCluster = map[string]string{name: opt.Cluster.InitialAdvertisePeerURLs[0]}
+			opt.APIAddr = fmt.Sprintf("localhost:%d", ports[2])
+		}
 		cl, err := New(opt)
 		ch <- res{c: cl, opt: opt, err: err}
 	}()
@@ -84,6 +98,37 @@ func c19StartCluster(dir string) (*cluster, *option.Options, error) {
 	case <-time.After(120 * time.Second):
 		return nil, nil, fmt.Errorf("cluster.New did not return within 120s")
 	}
+}
+
+
+// c19PortsOutsideEphemeralRange picks n TCP ports in 12000..31999 (below the kernel's
+// ephemeral range 32768..60999, so neither a ":0" listener nor an outgoing connection of any
+// process is ever given one of them) that are free on the loopback addresses right now.  The
+// start point depends on the process id so that shards running side by side look at
+// different ports first.
+func c19PortsOutsideEphemeralRange(n int) ([]int, bool) {
+	const lo, span = 12000, 20000
+	start := (os.Getpid()*131 + int(time.Now().UnixNano()/1000)%977) % span
+	var out []int
+	for i := 0; i < span && len(out) < n; i++ {
+		p := lo + (start+i*7)%span
+		free := true
+		for _, host := range []string{"127.0.0.1", "[::1]", ""} {
+			ln, err := net.Listen("tcp", fmt.Sprintf("%s:%d", host, p))
+			if err != nil {
+				if host == "[::1]" && !strings.Contains(err.Error(), "address already in use") {
+					continue // no IPv6 loopback here
+				}
+				free = false
+				break
+			}
+			ln.Close()
+		}
+		if free {
+			out = append(out, p)
+		}
+	}
+	return out, len(out) == n
 }
 
 func c19NewRig(r *kit.Run) (*c19Rig, error) {
